@@ -2,13 +2,69 @@
 from replay.common import main
 
 
+POOL = ['a.x = 5', 'b.x = a.x + 1', 'a.x += 1', 'a.x += b.x', 'c.x -= a.x', 'c.x *= 2', 'b.x = 50', 'c.x = 7',
+        'try:\n        a.x += boom()\n    except ValueError:\n        pass',
+        'try:\n        b.x -= boom()\n    except ValueError:\n        pass']
+
+
 def scenarios(seed, tier, failed):
+    import random
     for n in (2, 3):
         for names in (['x'], ['x', 'y']):
             yield {'kind': 'tsa-instances', 'instances': n, 'names': names}
+    # statements run from a real source file (the attribute reads its caller's source line), compared with plain objects
+    yield {'kind': 'statements', 'stmts': ['a.x = 3', POOL[8], 'b.x = 50'], 'equal_instances': False}
+    yield {'kind': 'statements', 'stmts': ['a.x = 1', 'b.x = 2', 'a.x += b.x'], 'equal_instances': False}
+    yield {'kind': 'statements', 'stmts': ['a.x = 41', 'c.x = 7'], 'equal_instances': True}
+    rnd = random.Random(seed + 29)
+    for _ in range(60 if tier == 'quick' else 3000):
+        yield {'kind': 'statements', 'stmts': [rnd.choice(POOL) for _ in range(rnd.randint(2, 7))],
+               'equal_instances': rnd.random() < 0.3}
+
+
+def run_statements(sc):
+    import importlib.util
+    import os
+    import tempfile
+    body = ''.join('    %s\n    log.append([o.x for o in (a, b, c)])\n' % st for st in sc['stmts'])
+    eq = ('    def __eq__(self, o):\n        return isinstance(o, type(self)) and self.ch == o.ch\n'
+          '    def __hash__(self):\n        return hash(self.ch)\n') if sc['equal_instances'] else ''
+    src = ('from miros.thread_safe_attributes import MetaThreadSafeAttributes\n'
+           'class K(metaclass=MetaThreadSafeAttributes):\n    _attributes = ["x"]\n'
+           '    def __init__(self, ch):\n        self.ch = ch\n' + eq +
+           'class P:\n    def __init__(self, ch):\n        self.ch = ch\n        self.x = 0\n' + eq +
+           'def boom():\n    raise ValueError("boom")\n'
+           'def go(a, b, c, log):\n' + body + '    return log\n')
+    d = tempfile.mkdtemp(prefix='c29_')
+    path = os.path.join(d, 'stmts_mod.py')
+    with open(path, 'w') as f:
+        f.write(src)
+    try:
+        spec = importlib.util.spec_from_file_location('c29_stmts_%d' % abs(hash(src)), path)
+        mod = importlib.util.module_from_spec(spec)
+        spec.loader.exec_module(mod)
+        chans = (1, 1, 2) if sc['equal_instances'] else (1, 2, 3)      # a == b (distinct objects) when asked
+        want = mod.go(*[mod.P(ch) for ch in chans], [])
+        got = mod.go(*[mod.K(ch) for ch in chans], [])
+        for k, (g, w) in enumerate(zip(got, want)):
+            if g != w:
+                return False, 'after statement %d (%s) the three instances read %s, plain objects give %s' % (
+                    k, sc['stmts'][k].split(chr(10))[0], g, w), 'instances'
+        late = mod.K(1)
+        if late.x != 0:
+            return False, 'an instance created after assignments reads %r, expected 0' % (late.x,), 'instances'
+        return True, ''
+    finally:
+        try:
+            os.unlink(path)
+            os.rmdir(d)
+        except OSError:
+            pass
 
 
 def run(sc):
+    if sc['kind'] == 'statements':
+        return run_statements(sc)
     from miros.thread_safe_attributes import MetaThreadSafeAttributes
 
     class K(metaclass=MetaThreadSafeAttributes):
